@@ -581,6 +581,13 @@ def rf37(run, unit, entries):
                 if c in 'aA':
                     run.ob(rule, (unit, fn, x['l'], m.start()), True, {'site': '%s:%d' % (f.relfile(), x['l']), 'conversion': m.group(0), 'verdict': 'hexadecimal: exact'})
                     continue
+                if unit == 'mir2c' and c in 'gG' and '#' not in (flags or ''):
+                    n += 1
+                    run.ob(rule, (unit, fn, x['l'], m.start(), 'point'), False, {'site': '%s:%d' % (f.relfile(), x['l']), 'conversion': m.group(0), 'type': tname})
+                    run.violation(rule, f, 'conversion %s drops the decimal point' % m.group(0),
+                                  '%s prints a %s into the C text with %s: without the `#` flag %%g writes an integral value as `5`, an integer '
+                                  'constant in C — `ddiv d, 1.0, 4.0` becomes `d = 1 / 4;` (0), and an integral double in the variadic part of a '
+                                  'call is passed as an int' % (fn, tname, m.group(0)), line=x['l'])
                 need = FP_NEED[tname]
                 if c in 'fF':
                     ok, digits = False, None
